@@ -123,6 +123,22 @@ instance : Monad M where
   | .ok a => pure a
   | .error e => fail e
 
+/-- `for i in 0..n { state = step(state, i)? }`: a counted loop that stops at the first error or
+    panic. Tail recursive (the list-shaped readers of `MdModel.Dump` recurse through `bind`, which
+    is fine for the few thousand entries a stream can hold but not for loops whose count is only
+    bounded by the file length); the log is accumulated in reverse. `n` may be huge (an unchecked
+    u32 from the file): nothing of size `n` is materialised. -/
+def loopGo {σ : Type} (step : σ → Nat → M σ) : Nat → Nat → σ → List Alloc → M σ
+  | 0, _, s, rev => ⟨.ok s, rev.reverse⟩
+  | todo + 1, i, s, rev =>
+    let r := step s i
+    match r.res with
+    | .ok s' => loopGo step todo (i + 1) s' (r.allocs.reverse ++ rev)
+    | .err e => ⟨.err e, (r.allocs.reverse ++ rev).reverse⟩
+    | .panic p => ⟨.panic p, (r.allocs.reverse ++ rev).reverse⟩
+
+def loop {σ : Type} (n : Nat) (init : σ) (step : σ → Nat → M σ) : M σ := loopGo step n 0 init []
+
 end M
 
 /-! ## `usize` / `u64` arithmetic -/
